@@ -29,6 +29,24 @@ def generated_code(hint, conf):
     return code, dict(scope)
 
 
+def generated_code_traced(hint, conf):
+    """generated_code + the trace of the placeholder mechanism: [(placeholder, snippet)] in visit order, as passed to
+    `replace_str_substrs` by make_check_expr (observed from outside by substituting the module attribute)."""
+    from beartype._check.code import codemain
+    orig = codemain.replace_str_substrs
+    events = []
+
+    def spy(text, old, new):
+        events.append((old, new))
+        return orig(text=text, old=old, new=new)
+    codemain.replace_str_substrs = spy
+    try:
+        code, scope = generated_code(hint, conf)
+    finally:
+        codemain.replace_str_substrs = orig
+    return code, scope, events
+
+
 _ALIAS: dict = {}
 
 
